@@ -10,9 +10,13 @@ for rec in log.split("\x00"):
     if not rec: continue
     h, s, b = (rec.split("\t", 2) + ["", ""])[:3]
     commits.append((h, s, b))
+_alias = {}
+_ap = os.path.join(ROOT, "tools", "rehash_aliases.json")
+if os.path.exists(_ap): _alias = json.load(open(_ap))       # hashes of the pre-tidy history / builder branches -> subject
 def resolve(c):
     if not c: return None
     c = c.strip()
+    if re.fullmatch(r"[0-9a-f]{7,40}", c) and c[:7] in _alias: c = _alias[c[:7]]
     if 'SDES-SRTP answerer waits for its local description' in c or 'SDES-SRTP transport start also waits' in c or 'SDES-SRTP wait for descriptions' in c:
         c = 'fix: SDES-SRTP direct transport start waits for both descriptions'
     for h, s, b in commits:
@@ -23,8 +27,11 @@ def resolve(c):
     if m:
         for h, s, b in commits:
             if m.group(1)[:7] in b or h.startswith(m.group(1)[:7]): return h
+    c2 = re.sub(r"^[0-9a-f]{7,40}\s+", "", c)      # "abc1234 fix: …" written with a builder-branch hash: match by subject
     for h, s, b in commits:
-        if c[:60] and c[:60] in s: return h
+        if c2 and (c2 == s or s.startswith(c2) or c2.startswith(s)): return h
+    for h, s, b in commits:
+        if c2[:60] and c2[:60] in s: return h
     return None
 base = json.load(open(os.path.join(ROOT, "known_findings.json")))
 out = []
